@@ -43,7 +43,7 @@ def in_repeating_scope(n: model.MNode) -> bool:
 class C11Commands(Oracle):
     """Exclusivity and init/finalize pairing of UOD command instances, from the probe callbacks."""
 
-    OVERLAP = [{"LongA", "LongB"}]
+    OVERLAP = [{"LongA", "LongB"}, {"LongB", "LongC"}]
 
     def __init__(self, world, plan, res):
         super().__init__(world, plan, res)
@@ -197,6 +197,8 @@ class C05Blocks(Oracle):
     def __init__(self, world, plan, res):
         super().__init__(world, plan, res)
         self.stack: list[str] = []
+        self.ended: set[str] = set()
+        self.tainted = ""
         self.ev_pos = 0
         self.tree = model.parse(plan["method"]) if plan.get("cfg", {}).get("wellformed") else None
         self.by_name = {}
@@ -220,6 +222,8 @@ class C05Blocks(Oracle):
         for e in w.events[self.ev_pos:]:
             if e[1] == "start" or e[1] == "stop":
                 self.stack = []
+                self.ended = set()
+                self.tainted = ""
             elif e[1] == "block_start" and e[2] != "root":
                 name = e[2]
                 node = self.by_name.get(name)
@@ -232,10 +236,17 @@ class C05Blocks(Oracle):
                 self.stack.append(name)
             elif e[1] == "block_end":
                 name = e[2]
+                if name in self.ended and name not in self.stack:
+                    # a block that has already ended is ended again (the End block of its own body after an End block(s)
+                    # from a Watch): everything the oracle sees afterwards is a consequence of that
+                    self.v("C05", "C05.block_ended_twice", "Block", f"block {name} ended a second time (active chain {self.stack})")
+                    self.tainted = "@after_double_end"
+                    continue
+                self.ended.add(name)
                 if not self.stack:
-                    self.v("C05", "C05.block_end_without_active_block", "Block", f"block_end {name} with no active block")
+                    self.v("C05", "C05.block_end_without_active_block" + self.tainted, "Block", f"block_end {name} with no active block")
                 elif self.stack[-1] != name:
-                    self.v("C05", "C05.ended_block_not_innermost", "Block",
+                    self.v("C05", "C05.ended_block_not_innermost" + self.tainted, "Block",
                            f"block {name} ended while active chain is {self.stack}")
                     if name in self.stack:
                         self.stack.remove(name)
@@ -246,7 +257,7 @@ class C05Blocks(Oracle):
         tagv = w.tag("Block")
         want = self.stack[-1] if self.stack else None
         if (tagv or None) != (want or None) and w.state not in ("Stopped", "Restarting"):
-            self.v("C05", "C05.block_tag_mismatch", "Block",
+            self.v("C05", "C05.block_tag_mismatch" + self.tainted, "Block",
                    f"Block tag = {tagv!r}, active chain {self.stack}")
         self.res.state("blk", len(self.stack))
 
@@ -450,14 +461,58 @@ class C03Thresholds(Oracle):
                                      "ACV": w.engine.tags["Accumulated CV"].get_value(),
                                      "BCV": w.engine.tags["Block CV"].get_value()}
 
+    root_clock = None            # independent model of the root scope clock: time spent Running since it was activated
+    ev_pos = 0
+
     def after_tick(self, w, inc):
         if w.state != "Running":
             self.disturbed_ticks.add(w.tick_no)
+        b = self.before.get(w.tick_no)
+        for e in w.events[self.ev_pos:]:
+            if e[1] == "start":
+                self.root_clock = None
+            if e[1] == "scope_activate" and e[3] == "Program":
+                self.root_clock = 0.0
+        self.ev_pos = len(w.events)
+        if b is not None:
+            b["model_root"] = self.root_clock
+        if self.root_clock is not None and b is not None and b["state"] == "Running":
+            self.root_clock += inc
+
+    def _model_check(self, w, recs):
+        """Root-level thresholded instructions against the model clock (catches a scope clock that runs while it must not)."""
+        for n in self.tree.children:
+            if n.threshold is None or n.kind in ("Block",):
+                continue
+            states = recs.get(n.id, [])
+            started = [x for x in states if x[0] == "started"]
+            if not started or any(x[0] == "forced" for x in states):
+                continue
+            k = started[0][1]
+            best = None
+            for kk in (k, k - 1, k + 1):
+                b = self.before.get(kk)
+                if b is None or b.get("model_root") is None or b["base"] not in self.UNIT or b["blk"] not in (None, ""):
+                    continue
+                best = max(best or 0.0, b["model_root"])
+                base = b["base"]
+            if best is None:
+                continue
+            need = n.threshold * self.UNIT[base]
+            if best + 0.1 + 1e-6 < need:
+                self.v("C03", "C03.started_before_threshold_by_model_clock", n.kind,
+                       f"{n.text.strip()!r} started in tick {k} after only {best:.2f} s of Running time in its scope "
+                       f"(threshold {need:g} s; Scope Time tag said {self.before.get(k, {}).get('ST')})")
+            else:
+                self.res.probe("threshold_checked_by_model_clock")
 
     def at_end(self, w):
+        recs = records(w)
+        if not any(op[0] in ("edit", "inject", "cancel", "force") for op in self.plan["ops"]) and \
+                not any(op[0] == "user" and op[1] in ("Stop", "Restart") for op in self.plan["ops"]):
+            self._model_check(w, recs)
         if not self.no_requests:
             return
-        recs = records(w)
         for nid, states in recs.items():
             n = self.nodes.get(nid)
             if n is None or n.threshold is None:
@@ -519,6 +574,9 @@ class C03Thresholds(Oracle):
             i = sibs.index(n)
             if i + 1 < len(sibs) and sibs[i + 1].is_ws:
                 continue
+            order = {lid: k for k, (lid, _) in enumerate(self.plan["method"])}
+            if i + 1 < len(sibs) and order.get(sibs[i + 1].id, -1) != order.get(n.id, -9) + 1:
+                continue        # something (a blank line attached to another scope) stands between them in the text
             if i + 1 >= len(sibs):
                 continue
             nxt = recs.get(sibs[i + 1].id)
